@@ -53,7 +53,8 @@ theorem params_match :
      Gen.SearchParams.limitResultsTruncates && Gen.SearchParams.fuzzyClamped &&
      Gen.SearchParams.legacyDefaultIsConstant && Gen.SearchParams.legacySortsAndLimits &&
      Gen.SearchParams.sortAndLimitShape && Gen.SearchParams.recoveryOrder &&
-     Gen.SearchParams.cliRecoveryTruncated) = true := by
+     Gen.SearchParams.cliRecoveryTruncated && Gen.SearchParams.cliRecoveryFiltered &&
+     Gen.SearchParams.filterResultsShape) = true := by
   decide
 
 /-- the default limits are usable: `SearchUniversal` substitutes a positive number for a non-positive
